@@ -181,6 +181,10 @@ class Interp(object):
       return f.ctor(self, *args, **kwargs)
     if isinstance(f, ExcClass):
       return ExcVal(f.name, tuple(args))
+    if isinstance(f, UnboundModelMethod):
+      return f.cls.methods[f.name](self, *args, **kwargs)
+    if isinstance(f, SuperProxy):
+      raise EngineError("calling super object")
     if isinstance(f, Model) and hasattr(f, 'py___call__'):
       return f.py___call__(self, *args, **kwargs)
     if isinstance(f, PyObj):
@@ -396,6 +400,16 @@ class Interp(object):
       if name in obj.methods:
         return UnboundModelMethod(obj, name)
       raise EngineError("model class %s has no attribute %s" % (obj.name, name))
+    if isinstance(obj, SuperProxy):
+      target = obj.obj
+      if not isinstance(target, PyObj) or not isinstance(obj.cls, RepoClass):
+        raise EngineError("super() on %r" % (target,))
+      m = self.find_method(target.cls, name, after=obj.cls.info)
+      if m is None:
+        if name == '__init__':
+          return Builtin('object.__init__', lambda ip, a, k: None)
+        raise PyRaise(ExcVal('AttributeError', (name,)))
+      return BoundMethod(target, m[0])
     if isinstance(obj, ExcVal):
       if name == 'args':
         return tuple(obj.args)
